@@ -374,7 +374,7 @@ static void sf_part_comp(const sf_t *f, void *c, int n, int q, int variant)
     xb_dup(&xm, a, slice(L), L); xb_dup(&xk, (a + 5) % 16, slice(kl), kl); xb_new(&xo, (a * 7 + 3) % 16, f->out);
     sf_ref(f, xk.p, kl, xm.p, L, ref);
     vf_distinct("%s|comp|n=%d|q=%d|v=%d|kl=%zu", f->name, n, q, variant, kl);
-    if (g_batch == 0 || g_only >= 0) vf_sample("%s: all %u compositions of the last %d bytes of a %zu-byte message (prefix %d, variant %d, key %zu bytes, src align %d)", f->name, 1u << (n - 1), n, L, q, variant, kl, a);
+    if ((q == 0 && n == 12) || g_only >= 0) vf_sample("%s: all %u compositions of the last %d bytes of a %zu-byte message (prefix %d, variant %d, key %zu bytes, src align %d)", f->name, 1u << (n - 1), n, L, q, variant, kl, a);
     long bad = 0;
     for (uint32_t mask = 0; mask < (1u << (n - 1)); mask++) {
         if (sf_init(f, c, xk.p, kl) < 0) { V(f->name, "init-failed", "Init returned an error"); break; }
@@ -454,7 +454,7 @@ static void sf_inter(const sf_t *f, const sf_t *g)
 }
 
 /* batch layout of group "stream": per sf, parts 0..7, part 0 split in sub-batches per n above 12 */
-static const int NC0[3] = { 12, 16, 21 }, NC1[3] = { 9, 12, 16 }, RN[3] = { 24, 500, 8000 }, IN[3] = { 16, 300, 5000 };
+static const int NC0[3] = { 12, 17, 21 }, NC1[3] = { 9, 12, 16 }, RN[3] = { 24, 1000, 8000 }, IN[3] = { 16, 500, 5000 };
 #define SF_SUB (8 + 10)  /* parts 0..7 (part 0: n<=12) + sub-batches for n = 13..22 */
 static int stream_nbatches(void) { return NSF * SF_SUB; }
 static void stream_run(int batch)
@@ -675,7 +675,7 @@ static void pbkdf2_item(size_t pl, size_t sl, int rounds, size_t kl, int a)
     xb_t xp, xs, xo; unsigned char *ref = malloc(kl);
     xb_dup(&xp, a, slice(pl), pl); xb_dup(&xs, (a + 3) % 16, slice(sl), sl); xb_new(&xo, (a + 6) % 16, kl);
     if (!PKCS5_PBKDF2_HMAC((const char *) xp.p, (int) pl, xs.p, (int) sl, rounds, RMD[R_SHA1], (int) kl, ref)) die("PKCS5_PBKDF2_HMAC failed");
-    if (g_batch == 0 && g_item == 1) vf_sample("pbkdf2: password %zu bytes, salt %zu, %d rounds, %zu output bytes", pl, sl, rounds, kl);
+    if (g_batch == 0 && g_item == 50) vf_sample("pbkdf2: password %zu bytes, salt %zu, %d rounds, %zu output bytes", pl, sl, rounds, kl);
     psPkcs5Pbkdf2(xp.p, (uint32) pl, xs.p, (uint32) sl, rounds, xo.p, (uint32) kl);
     cnt(pl > 64 ? "pbkdf2-long-password" : "pbkdf2");
     if (memcmp(xo.p, ref, kl)) V("pbkdf2", pl > 64 ? "wrong-output-long-password" : "wrong-output", "password %zu bytes salt %zu rounds %d key %zu: got %s want %s", pl, sl, rounds, kl, hx(xo.p, kl), hx(ref, kl));
@@ -748,7 +748,7 @@ static void cbc_item(const cbc_t *c, int enc, size_t nb, const uint32_t *cut, in
     unsigned char *dst = inplace ? xi.p : xo.p;
     if (g_item & 1) { unsigned char scratch[32]; if (cbc_init(c, x, xk.p, xk.p, !enc) >= 0) cbc_crypt(c, x, !enc, xk.p, scratch, (uint32_t) c->bs); }   /* dirty the context: reuse through re-Init */
     int32_t rc = cbc_init(c, x, xv.p, xk.p, enc);
-    if (g_batch % 6 == 0 && g_item == 1) vf_sample("%s: %s %zu bytes in %d calls, src align %d dst align %d%s", c->name, enc ? "encrypt" : "decrypt", n, nc + 1, sa, da, inplace ? " in place" : "");
+    if (g_batch % 6 == 3 && g_item == 300) vf_sample("%s: %s %zu bytes in %d calls, src align %d dst align %d%s", c->name, enc ? "encrypt" : "decrypt", n, nc + 1, sa, da, inplace ? " in place" : "");
     cnt(c->name);
     if (rc < 0) V(c->name, "init-failed", "Init returned %d", rc);
     else {
@@ -861,7 +861,7 @@ static void gcm_item(int ki, size_t n, size_t al, const uint32_t *cut, int nc, i
     if (!item_begin()) return;
     gcase_t g; gcase_new(&g, ki, n, al, a);
     psAesGcm_t *x = malloc(sizeof *x); xb_t xo, xt, xw; const char *nm = GN[ki];
-    if (g_batch % 6 == 0 && g_item == 1) vf_sample("%s: seal+open %zu bytes, aad %zu, %d encrypt calls, tag %d bytes, align %d%s", nm, n, al, nc + 1, tb, a, inplace ? " in place" : "");
+    if (g_batch % 6 == 0 && g_item == 700) vf_sample("%s: seal+open %zu bytes, aad %zu, %d encrypt calls, tag %d bytes, align %d%s", nm, n, al, nc + 1, tb, a, inplace ? " in place" : "");
     /* --- seal --- */
     xb_dup(&xw, (a + 5) % 16, g.pt.p, n); xb_new(&xo, (a + 9) % 16, inplace ? 0 : n); xb_new(&xt, (a + 4) % 16, tb);
     unsigned char *dst = inplace ? xw.p : xo.p;
@@ -942,7 +942,7 @@ static void gcm_neg_item(int ki, size_t n, size_t al, int tb, int use2)
     gcase_t g; gcase_new(&g, ki, n, al, (int) ((n + al) % 16));
     psAesGcm_t *x = malloc(sizeof *x); const char *nm = GN[ki]; xb_t xw, xo, xiv, xa; int32_t rc; long nchk = 0; int bad[5] = { 0, 0, 0, 0, 0 };
     xb_new(&xw, 1, n + tb); memcpy(xw.p, g.ct, n); memcpy(xw.p + n, g.tag, tb); xb_new(&xo, 2, n); xb_dup(&xiv, 3, g.iv.p, 12); xb_dup(&xa, 4, g.aad.p, al);
-    if (g_batch % 6 == 3 && g_item == 1) vf_sample("%s: all %zu single-bit changes of ct(%zu)/tag(%d)/nonce/aad(%zu) + truncations must be rejected (%s)", nm, 8 * (n + tb + 12 + al), n, tb, al, use2 ? "psAesDecryptGCM2" : "psAesDecryptGCM");
+    if (g_batch % 6 == 3 && g_item == 5) vf_sample("%s: all %zu single-bit changes of ct(%zu)/tag(%d)/nonce/aad(%zu) + truncations must be rejected (%s)", nm, 8 * (n + tb + 12 + al), n, tb, al, use2 ? "psAesDecryptGCM2" : "psAesDecryptGCM");
     if (gcm_ready(x, ki, g.k.p, g.iv.p, g.aad.p, al) == 0) {
 #define GCM_OPEN() (gcm_again(x, ki, g.k.p, xiv.p, xa.p, al, use2 ? 16 : tb), nchk++, use2 ? psAesDecryptGCM2(x, xw.p, xo.p, (uint32_t) n, xw.p + n, (uint32_t) tb) : psAesDecryptGCM(x, xw.p, (uint32_t) (n + tb), xo.p, (uint32_t) n))
         rc = GCM_OPEN();
@@ -1020,7 +1020,7 @@ static void gcm_inter_item(int ki, int ki2)
     }
     vf_distinct("gcm|inter|%d|%d", ki, ki2);
 }
-static const int GNEG[3] = { 1, 12, 300 };
+static const int GNEG[3] = { 1, 30, 300 };
 static int gcm_nbatches(void) { return 3 * 6; }
 static void gcm_run(int batch)
 {
@@ -1083,7 +1083,7 @@ static void chacha_item(size_t n, size_t al, int a, int inplace, const char *tag
     if (!item_begin()) return;
     ccase_t g; ccase_new(&g, n, al, a);
     psChacha20Poly1305Ietf_t *x = malloc(sizeof *x); xb_t xo, xt, xw; psResSize_t rc;
-    if (g_batch == 0 && g_item == 1) vf_sample(CN ": seal+open %zu bytes, aad %zu, align %d%s", n, al, a, inplace ? " in place" : "");
+    if (g_batch == 0 && g_item == 131) vf_sample(CN ": seal+open %zu bytes, aad %zu, align %d%s", n, al, a, inplace ? " in place" : "");
     if (psChacha20Poly1305IetfInit(x, g.k.p) < 0) { V(CN, "init-failed", "Init failed"); goto out; }
     /* combined seal */
     xb_new(&xo, (a + 5) % 16, n + 16); if (inplace) memcpy(xo.p, g.pt.p, n);
@@ -1128,7 +1128,7 @@ static void chacha_neg_item(size_t n, size_t al, int detached)
     ccase_t g; ccase_new(&g, n, al, (int) ((n + al) % 16));
     psChacha20Poly1305Ietf_t *x = malloc(sizeof *x); xb_t xw, xo, xiv, xa; psResSize_t rc; long nchk = 0; int bad[5] = { 0, 0, 0, 0, 0 };
     xb_dup(&xw, 1, g.ct, n + 16); xb_new(&xo, 2, n); xb_dup(&xiv, 3, g.iv.p, 12); xb_dup(&xa, 4, g.aad.p, al);
-    if (g_batch == 2 && g_item == 1) vf_sample(CN ": all %zu single-bit changes of ct(%zu)/tag/nonce/aad(%zu) + truncations must be rejected", 8 * (n + 16 + 12 + al), n, al);
+    if (g_batch == 2 && g_item == 6) vf_sample(CN ": all %zu single-bit changes of ct(%zu)/tag/nonce/aad(%zu) + truncations must be rejected", 8 * (n + 16 + 12 + al), n, al);
     if (psChacha20Poly1305IetfInit(x, g.k.p) < 0) { V(CN, "init-failed", "Init failed"); goto out; }
 #define CC_OPEN() (nchk++, detached ? psChacha20Poly1305IetfDecryptDetached(x, xw.p, n, xiv.p, xa.p, al, xw.p + n, xo.p) : psChacha20Poly1305IetfDecrypt(x, xw.p, n + 16, xiv.p, xa.p, al, xo.p))
     rc = CC_OPEN();
@@ -1230,13 +1230,17 @@ int main(int argc, char **argv)
     ref_setup();
     pool = malloc(POOLSZ);
     long idx = 0, nb_total = 0;
+    const char *only = vf_arg("--only", NULL);      /* restrict a stage to one group */
     for (int gi = 0; gi < NGROUPS; gi++) {
         int nb = GROUPS[gi].nb();
+        if (only && !vf_case && strcmp(only, GROUPS[gi].name)) continue;
         for (int b = 0; b < nb; b++, idx++) {
             job_t j = { &GROUPS[gi], b };
             if (vf_case) {
                 if (only_g != &GROUPS[gi] || only_b != b) continue;
-                run_job(&j);            /* in-process: a sanitizer report ends the replay with the real report on stderr */
+                /* sanitizer build: in-process, so a report ends the replay with the real report on stderr (the driver keys
+                 * it); plain build: forked, so a crash still becomes a crash record */
+                if (C12_TAIL) { char cls[48]; snprintf(cls, sizeof cls, "c12-%s", GROUPS[gi].name); vf_fork_case(run_job, &j, cls, vf_case, 1500); } else run_job(&j);
                 continue;
             }
             if (!vf_mine(idx)) continue;
